@@ -74,10 +74,10 @@ struct progInfo {
 	int		locsCount;
 	Fmt		fmtPar;			/* parameters */
 	int		parsCount;
-	UByte		* dfluid;		/* DFluid     */
-	UByte		dfluidsCount;
-	UByte		* denv;			/* DEnv	      */
-	UByte		denvsCount;
+	UShort		* dfluid;		/* DFluid: format numbers exceed a byte in large units */
+	UShort		dfluidsCount;
+	UShort		* denv;			/* DEnv	      */
+	UShort		denvsCount;
 
 	FiWord		_progInfo;		/* $$ REMOVE when interfaced w/h C */
 };
@@ -1087,7 +1087,7 @@ fintInit(void)
 	 * reads defs
 	 */
 	prog = (ProgInfo) fintAlloc(struct progInfo, 1);
-	progInfoDEnv(prog) = (UByte *) fintAlloc(UByte, 1);
+	progInfoDEnv(prog) = (UShort *) fintAlloc(UShort, 1);
 	*progInfoDEnv(prog) = POS_LEX_FMT;   /* null format */
 
 	evalBuf = bufNew();
@@ -1455,9 +1455,9 @@ readDef(FintUnit unit)
 		hardAssert(tag == FOAM_DFluid);
 
 		if (argc) {
-			UByte * b;
+			UShort * b;
 
-			b = (UByte *) fintAlloc(UByte, argc);
+			b = (UShort *) fintAlloc(UShort, argc);
 			for (n = 0; n < argc; n++)
 				fintGetInt(fmt, b[n]);
 
@@ -1466,7 +1466,7 @@ readDef(FintUnit unit)
 		else
 			progInfoDFluid(p) = NULL;
 
-		progInfoDFluidsCount(p) = (UByte) argc;
+		progInfoDFluidsCount(p) = (UShort) argc;
 
 		/* DEnv */
 
@@ -1474,9 +1474,9 @@ readDef(FintUnit unit)
 		hardAssert(tag == FOAM_DEnv);
 
 		if (argc) {
-			UByte * b;
+			UShort * b;
 
-			b = (UByte *) fintAlloc(UByte, argc);
+			b = (UShort *) fintAlloc(UShort, argc);
 			for (n = 0; n < argc; n++)
 				fintGetInt(fmt, b[n]);
 
@@ -1485,7 +1485,7 @@ readDef(FintUnit unit)
 		else
 			progInfoDEnv(p) = NULL;
 
-		progInfoDEnvsCount(p) = (UByte) argc;
+		progInfoDEnvsCount(p) = (UShort) argc;
 
 		pLabels = progInfoLabels(p);
 		labelsCount = 0;
@@ -3696,7 +3696,7 @@ fintEval_(DataObj retDataObj)
 	case FOAM_CCall: {
 		union dataObj	par;
 		dataType	retType;
-		UByte		denv;
+		UShort		denv;
 		ProgInfo	prog0;
 		FiEnv		env;
 
@@ -5488,7 +5488,7 @@ fintDoCallN(DataObj clos, DataObj retDataObj, int argc, DataObj *argv)
 	DataObj		sp0;
 	DataObj		oldStack;
 	int		nFluids, i;
-	UByte		denv;
+	UShort		denv;
 
 	stackAlloc(sp0, 0 + PAR_OFFSET);
 	oldStack = stack;
@@ -6275,7 +6275,7 @@ fintExecMainUnit(void)
 {
 	union dataObj	expr;
 	dataType	type = 0;
-	UByte		denv;
+	UShort		denv;
 	int		nFluids;
 	FiBool ok;
 
